@@ -3,6 +3,7 @@
 pub mod base;
 pub mod conc;
 pub mod ds;
+pub mod gcfix;
 pub mod layout;
 pub mod los;
 pub mod immix;
@@ -21,6 +22,7 @@ pub fn dispatch(tokens: &[&str]) -> Option<String> {
         .or_else(|| immix::dispatch(tokens))
         .or_else(|| sched::dispatch(tokens))
         .or_else(|| los::dispatch(tokens))
+        .or_else(|| gcfix::dispatch(tokens))
 }
 
 /// `cfg <key> …` lines hx_unit does not handle itself are offered to the packages
